@@ -42,7 +42,7 @@ func checkC10(c *Ctx) {
 		}
 	}
 	c10model(c, "C10.R4")
-	c.Floor("C10.R3", 8)
+	c.Floor("C10.R3", 5)
 	c.Floor("C10.R4", 8)
 	c10proj(c)
 }
